@@ -36,6 +36,7 @@ PLAN = {
     "D11": ("606d664", [("C13", "d11-newton-one-sided.bin")]),
     "D12": ("9d94487", [("C16", "d12-snapshot-tables.bin")]),
     "D14": ("422472b", [("C01", "d14-pocket-carve-hang.bin")]),
+    "D17": ("fbd7db9", [("C12", "d17-rejected-exponent-kept.bin")]),
     "D16": ("dcb39cc", [("C12", "d16-newton-derivative-overflow.bin"), ("C13", "d16-newton-derivative-overflow.bin")]),
     "D15": ("7cb2990", [("C01", "d15-masked-base-level-pflood.bin"), ("C02", "d15-masked-base-level-pflood.bin")]),
 }
